@@ -88,6 +88,8 @@ type modLoc struct {
 	heap  string // heap name (with component suffix)
 	whole bool
 	ref   string // object / array row that may change (evaluated in the pre-state)
+	lo    string // window(s): only the elements lo <= i < hi of the row may change ("" = the whole row)
+	hi    string
 }
 
 func (x *Exec) modTargets(c *SpecCtx, con *Contract) ([]modLoc, bool, error) {
@@ -146,6 +148,21 @@ func (x *Exec) modTarget(c *SpecCtx, m Expr) (res []modLoc, err error) {
 			for _, cn := range x.compNames("E$"+typeKey(et), et) {
 				x.eng.heapSorts[cn.suffix] = arr2Sort(cn.sort)
 				res = append(res, modLoc{heap: cn.suffix, ref: sv.Arr})
+			}
+			return res, nil
+		case "window": // window(sliceexpr): the elements off .. off+len-1 of the backing array, nothing else of it
+			v, t := oc.eval(n.Args[0])
+			sv, ok := v.(SliceV)
+			if !ok {
+				return nil, fmt.Errorf("window() of non-slice")
+			}
+			et := t.Underlying().(*types.Slice).Elem()
+			if kindOf(et) == KStruct {
+				return nil, fmt.Errorf("window() of struct slices is not supported")
+			}
+			for _, cn := range x.compNames("E$"+typeKey(et), et) {
+				x.eng.heapSorts[cn.suffix] = arr2Sort(cn.sort)
+				res = append(res, modLoc{heap: cn.suffix, ref: sv.Arr, lo: sv.Off, hi: sx("+", sv.Off, sv.Len)})
 			}
 			return res, nil
 		case "allelems": // allelems("common.Pgid")
@@ -383,6 +400,10 @@ func (x *Exec) applyMods(st *State, mods []modLoc) {
 		}
 		h := x.heap(st, m.heap, srt)
 		fresh := x.fresh("mod", arrayRange(srt))
+		if m.lo != "" {
+			// windowed: elements outside [lo, hi) keep their values
+			x.emit(fmt.Sprintf("(assert (forall ((i$w Int)) (! (=> (not (and (<= %s i$w) (< i$w %s))) (= (select %s i$w) (select (select %s %s) i$w))) :pattern ((select %s i$w)))))", m.lo, m.hi, fresh, h, m.ref, fresh))
+		}
 		x.setHeap(st, m.heap, srt, sx("store", h, m.ref, fresh))
 	}
 }
@@ -410,6 +431,10 @@ func (x *Exec) havocHeapForce(st *State, name string) {
 			}
 			prev = k
 		}
+		// records not referenced so far ($argtotal, $argN, $argretN ... are created lazily) are havoced too: heap()
+		// materialises them from this marker instead of from their entry version
+		x.n++
+		st.heap[name+"$arg*"] = fmt.Sprintf("?%d", x.n)
 	}
 	if _, ok := x.eng.heapSorts[name]; ok {
 		x.havocHeap(st, name)
@@ -503,6 +528,24 @@ func (x *Exec) call(fr *Frame, st *State, reach string, cc *ssa.CallCommon, ins 
 		if par, ok := cc.Value.(*ssa.Parameter); ok && x.con != nil && fr.top {
 			for _, inv := range x.con.Invokes {
 				if inv == par.Name() {
+					for k, cl := range x.con.CallbackProvides {
+						cp := x.newCtx(st, topFrame.entry, x.con.Pkg, reach, fr)
+						x.bindFrameNames(fr, ins.Block(), cp)
+						x.bindBlockNames(fr, ins.Block(), cp)
+						for ai := range args {
+							cp.env[fmt.Sprintf("cbarg%d", ai)] = envEntry{v: args[ai], t: cc.Args[ai].Type()}
+						}
+						f, err := cp.formula(cl.E)
+						if err != nil {
+							x.fatal("%s:%d: callback provides: %v", cl.File, cl.Line, err)
+							continue
+						}
+						lbl := cl.Label
+						if lbl == "" {
+							lbl = fmt.Sprint(k)
+						}
+						x.oblige(x.oblName(fr, "provides", ins.Pos(), inv+"."+lbl), "provides", reach, f, cl, x.posText(ins.Pos())+": at the invocation of "+inv+": "+cl.Text)
+					}
 					flag := "G$invoked$" + inv
 					prev := x.heap(st, flag, "Bool")
 					x.oblige(x.oblName(fr, "invokes", ins.Pos(), inv+".once"), "invokes", reach, not(prev), nil, x.posText(ins.Pos())+": "+inv+" is invoked at most once")
@@ -754,6 +797,11 @@ func (x *Exec) applyContract(fr *Frame, st *State, reach string, con *Contract, 
 						}
 					}
 				}
+				// every slice argument is also recorded by its header: lastargarr / lastargoff / lastarglen
+				for _, c := range [][2]string{{".arr", av.Arr}, {".off", av.Off}, {".len", av.Len}} {
+					x.heap(st, an+c[0], "Int")
+					x.setHeap(st, an+c[0], "Int", c[1])
+				}
 			}
 		}
 	}()
@@ -819,6 +867,21 @@ func (x *Exec) applyContract(fr *Frame, st *State, reach string, con *Contract, 
 				}
 				var cres Val
 				ckey := funcKey(fv.Fn)
+				// what the higher-order function guarantees about the arguments it passes (callback provides)
+				for _, cl := range con.CallbackProvides {
+					cp := x.newCtx(after, pre, con.Pkg, and(reach, g), fr)
+					x.bindSig(cp, sig, pnames, args, con, callee, nil)
+					for k := range cargs {
+						cp.env[fmt.Sprintf("cbarg%d", k)] = envEntry{v: cargs[k], t: fv.Fn.Params[k].Type()}
+					}
+					// closures: the bound variables come first in Params? no - free variables are separate; Params are the declared ones
+					f, err := cp.formula(cl.E)
+					if err != nil {
+						x.fatal("%s:%d: callback provides of %s: %v", cl.File, cl.Line, key, err)
+						continue
+					}
+					x.assume(and(reach, g), f)
+				}
 				if ccon := x.eng.contracts[ckey]; ccon != nil {
 					x.curClo = fv.Clo
 					cres = x.applyContract(fr, after, and(reach, g), ccon, fv.Fn, fv.Fn.Signature, cargs, ins, crt, ckey, nil)
@@ -872,6 +935,11 @@ func (x *Exec) applyContract(fr *Frame, st *State, reach string, con *Contract, 
 					x.setHeap(st, rn+".nil", "Bool", sx("=", v.Arr, "0"))
 				}
 			}
+			// every slice result is also recorded by its header: lastretarr / lastretoff / lastretlen
+			for _, c := range [][2]string{{".arr", v.Arr}, {".off", v.Off}, {".len", v.Len}} {
+				x.heap(st, rn+c[0], "Int")
+				x.setHeap(st, rn+c[0], "Int", c[1])
+			}
 		}
 	}
 	c2 := x.newCtx(st, pre, con.Pkg, reach, fr)
@@ -920,6 +988,10 @@ func (x *Exec) builtin(fr *Frame, st *State, reach string, b *ssa.Builtin, cc *s
 				_, _, card, _, _ := x.mapHeaps(st, mt)
 				n := x.define("maplen", "Int", sx("select", card, a.T))
 				x.assume(reach, sx(">=", n, "0"))
+				// a map that has a key is not empty (card is the number of keys)
+				if dom, _, _, ks, _ := x.mapHeaps(st, mt); ks != "" {
+					x.assume(reach, fmt.Sprintf("(forall ((k$l %s)) (! (=> (select (select %s %s) k$l) (> %s 0)) :pattern ((select (select %s %s) k$l))))", ks, dom, a.T, n, dom, a.T))
+				}
 				return I(n)
 			}
 		}
@@ -946,6 +1018,14 @@ func (x *Exec) builtin(fr *Frame, st *State, reach string, b *ssa.Builtin, cc *s
 			op = ">="
 		}
 		return Sc{T: ite(sx(op, a.T, bb.T), a.T, bb.T), S: a.S}
+	case "Slice": // unsafe.Slice(ptr *T, n): a view of raw memory (A-unsafe), see rawView
+		if st, ok := rt.Underlying().(*types.Slice); ok && kindOf(st.Elem()) != KStruct && kindOf(st.Elem()) != KArray {
+			p, ok1 := args[0].(Sc)
+			n, ok2 := args[1].(Sc)
+			if ok1 && ok2 {
+				return SliceV{Arr: x.rawMem(), Off: x.define("rawoff", "Int", x.rawIndex(p.T, st.Elem())), Len: n.T, Cap: n.T}
+			}
+		}
 	case "print", "println":
 		return TupleV{}
 	case "recover":
@@ -962,6 +1042,30 @@ func (x *Exec) builtin(fr *Frame, st *State, reach string, b *ssa.Builtin, cc *s
 	}
 	x.warn("builtin %s: havoc", b.Name())
 	return x.havocVal(rt, b.Name())
+}
+
+// Raw memory (A-unsafe). Memory reached through unsafe pointer arithmetic (the payload behind a page header) is
+// modelled, per scalar element type T, as ONE row of the ordinary element heap E$T, owned by the distinguished
+// backing array `rawmem` and indexed by address div sizeof(T). A typed load/store through a pointer converted
+// from unsafe.Pointer, unsafe.Slice(ptr, n) and every re-slicing of it therefore alias each other exactly as
+// the addresses say (ptr+8k <-> index+k). Distinct objects may collide in this row (object references are not
+// spaced like addresses): that is MORE aliasing than the machine has, hence sound for proofs; what is assumed is
+// that such raw views do not alias struct fields or Go-allocated slices (layout K obligations fix the header size).
+func (x *Exec) rawMem() string {
+	x.declareFun("rawmem", "() Int")
+	x.emitOnce("rawmem-neg", "(assert (< rawmem 0))")
+	return "rawmem"
+}
+
+func (x *Exec) rawIndex(ptr string, et types.Type) string {
+	// the address as a signed number (pointer arithmetic is done in uintptr and wraps; object references may be
+	// negative for interior pointers), so that ptr+k*size <-> index+k holds across zero
+	sz := x.eng.sizes.Sizeof(et)
+	sg := sx("ite", sx(">=", ptr, "9223372036854775808"), sx("-", ptr, "18446744073709551616"), ptr)
+	if sz <= 1 {
+		return sg
+	}
+	return sx("div", sg, fmt.Sprint(sz))
 }
 
 func (x *Exec) appendBuiltin(fr *Frame, st *State, reach string, cc *ssa.CallCommon, args []Val, ins ssa.Instruction) Val {
